@@ -19,6 +19,9 @@ func (k msgServer) CreateValidator(ctx context.Context, msg *types.MsgCreateVali
 	}
 
 	// Validate amount
+	if msg.Amount.Amount.IsNil() || msg.Fee.Amount.IsNil() {
+		return nil, errorsmod.Wrap(types.ErrInvalidCreateValidatorAmount, "amount and fee cannot be empty")
+	}
 	powerReduction := k.stakingKeeper.PowerReduction(ctx)
 
 	if !msg.Amount.Amount.Equal(powerReduction) {
